@@ -16,8 +16,10 @@
                (same entries, same cuts);
      KRetry    tableCompactionBuilder.run driven attempt by attempt under injected storage faults: after every failed
                attempt the observed snapshot fields (builder and compaction) and the number of finished tables must
-               be those of the failure-free model run at position snapIter; the successful attempt must end with the
-               model's tables, dropCnt and kerrCnt.
+               be those of the failure-free model run at position snapIter, and what compaction.restore leaves on a
+               copy of the compaction right after the attempt (gpi, seenKey, gpOverlappedBytes, the cursors tPtrs below
+               the output level, and the untouched snapTPtrs) must be the compaction state of the model's [restore]; the
+               successful attempt must end with the model's tables, dropCnt, kerrCnt and live cursors.
    Loop cases (model Lsm/RangeCompact.v):
      KRange    one observed run of tableRangeCompaction's retry loop (DB.CompactRange): the version and compaction
                pointers it started on, the range, GetCompactionSourceLimit / GetCompactionExpandLimit per level, and per
@@ -42,10 +44,12 @@ Inductive ksizes := KS (uk : string) (seq : N) (steps : list (N * N)).
 
 (* the builder after one call of run: failed?, snapIter, snapHasLastUkey, snapLastUkey, snapLastSeq, snapKerrCnt,
    snapDropCnt, snapGPI, snapSeenKey, snapGPOverlappedBytes, snapTPtrs (below the output level), tables in the record,
-   kerrCnt, dropCnt *)
+   kerrCnt, dropCnt; the live tPtrs after run; gpi, seenKey, gpOverlappedBytes, tPtrs, snapTPtrs after compaction.restore
+   on a copy *)
 Inductive kattempt :=
   KA (failed : bool) (snapIter : N) (hasLast : bool) (lastU : string) (lastSeq snapKerr snapDrop : N)
-     (gpi : N) (seen : bool) (gpbytes : N) (tptrs : list N) (ntables kerr drop : N).
+     (gpi : N) (seen : bool) (gpbytes : N) (tptrs : list N) (ntables kerr drop : N)
+     (live : list N) (rgpi : N) (rseen : bool) (rbytes : N) (rptrs rsnap : list N).
 
 (* one compaction of a range pass: source level, inputs of both levels, installed outputs *)
 Inductive kcomp := KC (lvl : N) (t0 t1 : list N) (outs : list kmeta).
@@ -140,11 +144,22 @@ Definition next_fails_at (k : nat) : oracle :=
 
 Definition snap_matches (sn : snapshot) (a : kattempt) : bool :=
   match a with
-  | KA _ k has lu lq sk sd gpi seen gb tp _ _ _ =>
+  | KA _ k has lu lq sk sd gpi seen gb tp _ _ _ _ _ _ _ _ _ =>
       nat_eqN (sn_iter sn) k && Bool.eqb (sn_has sn) has && beq (sn_ukey sn) (unhex lu) && (sn_seq sn =? lq)
       && (sn_kerr sn =? sk) && (sn_drop sn =? sd)
       && nat_eqN (cs_gpi (sn_cs sn)) gpi && Bool.eqb (cs_seen (sn_cs sn)) seen && (cs_bytes (sn_cs sn) =? gb)
       && ptrs_eqb (cs_ptrs (sn_cs sn)) tp
+  end.
+
+Definition live_ptrs (s : bst) : list nat := cs_ptrs (cs s).
+
+(* compaction.restore on the state an attempt left: the live compaction fields become the snapshot's, the snapshot stays *)
+Definition restore_matches (s : bst) (a : kattempt) : bool :=
+  match a with
+  | KA _ _ _ _ _ _ _ _ _ _ _ _ _ _ _ rgpi rseen rbytes rptrs rsnap =>
+      let s' := restore s in
+      nat_eqN (cs_gpi (cs s')) rgpi && Bool.eqb (cs_seen (cs s')) rseen && (cs_bytes (cs s') =? rbytes)
+      && ptrs_eqb (cs_ptrs (cs s')) rptrs && ptrs_eqb (cs_ptrs (sn_cs (snap s'))) rsnap
   end.
 
 (* ---- loop cases ---- *)
@@ -247,13 +262,15 @@ Definition run_c06 (cs : c06case) : bool :=
       let att := fun o => run_attempt c kp (sz_of gp) (map to_mtable gp) maxgp dl minSeq strict tableSize ts o items (bst0 dl) in
       forallb (fun a =>
         match a with
-        | KA true k _ _ _ _ _ _ _ _ _ nt _ _ =>
-            (* a failed attempt: the persistent state is the failure-free one at position snapIter *)
+        | KA true k _ _ _ _ _ _ _ _ _ nt _ _ _ _ _ _ _ _ =>
+            (* a failed attempt: the persistent state is the failure-free one at position snapIter; the next attempt
+               starts from its restore *)
             let sk := if k =? 0 then bst0 dl else fst (att (next_fails_at (S (N.to_nat k)))) in
-            snap_matches (snap sk) a && nat_eqN (List.length (recs sk)) nt
-        | KA false _ _ _ _ _ _ _ _ _ _ nt ke dr =>
+            snap_matches (snap sk) a && nat_eqN (List.length (recs sk)) nt && restore_matches sk a
+        | KA false _ _ _ _ _ _ _ _ _ _ nt ke dr live _ _ _ _ _ =>
             match att o_ok with
             | (sf, ROk) => tables_eqb (out_items sf) obs && nat_eqN (List.length (recs sf)) nt && (kerr sf =? ke) && (drop sf =? dr)
+                           && ptrs_eqb (live_ptrs sf) live
             | _ => false
             end
         end) attempts
